@@ -25,6 +25,8 @@ def check(chk, fx):
     lexrules.match(chk, fx)
     saferules.empty_guard(chk, fx)
     saferules.posb(chk, fx)
+    from .. import primrules
+    primrules.prims(chk, fx, "CVEC2", "BUFIT", "UTIL")
     from .. import golden, goldenreg
     golden.group(chk, fx, "CVEC", "reference summaries of the fixed-capacity vector primitives", goldenreg.GROUPS["CVEC"])
     # the value slice handed to a functor must be taken from the stack as it is when the functor runs: the order
